@@ -246,6 +246,12 @@ type dtagModel struct {
 	decayKind int
 	bumpKind  int
 	closed    bool
+	// schedule, from the documented semantics: the decayer ticks every Resolution; a tag is
+	// decayed once per (effective) Interval, first one Interval after the decayer tick at or
+	// before its registration. Effective interval = max(requested, Resolution).
+	interval time.Duration
+	nextDue  time.Time
+	late     bool // interval >= 2 resolutions and registered after >= 1 decayer round in which no tag was due
 }
 
 type peerModel struct {
@@ -323,7 +329,7 @@ type world struct {
 	autoFlush     bool               // deliver Disconnected for every connection a trim closes right away
 
 	// flags describing the step that just ran, consumed by check()
-	decayMayTick bool
+	idleRounds   int // decayer rounds since the last one in which some tag was due
 	trimTimes    []time.Time // instants at which a regular (non-forced) trim ran or may have run
 
 	// statistics
@@ -478,8 +484,67 @@ func (w *world) registerDecaying(name string, interval time.Duration, dk, bk int
 	if err != nil {
 		return
 	}
-	w.dtags = append(w.dtags, &dtagModel{name: name, handle: h, decayKind: dk, bumpKind: bk})
+	res := w.cfg.decayRes
+	eff := h.Interval() // documented: the effective interval (raised to the resolution when shorter)
+	lastRound := w.t0.Add(time.Since(w.t0) / res * res) // decayer tick at or before now
+	d := &dtagModel{name: name, handle: h, decayKind: dk, bumpKind: bk, interval: eff, nextDue: lastRound.Add(eff),
+		late: eff >= 2*res && w.idleRounds >= 1}
+	w.dtags = append(w.dtags, d)
 	w.labels["decaying-tag"] = true
+	if eff >= 2*res {
+		w.labels["decaying:interval-multiple-of-resolution"] = true
+	}
+	if d.late {
+		w.labels["decaying:long-interval-registered-after-idle-rounds"] = true
+	}
+}
+
+// decayRound mirrors one tick of the decayer at instant now: every live tag that is due is
+// applied once to every peer holding a value for it and becomes due again one interval later.
+func (w *world) decayRound(now time.Time) {
+	anyDue := false
+	for _, d := range w.dtags {
+		if d.closed {
+			continue
+		}
+		due := !d.nextDue.After(now)
+		for _, p := range w.peers {
+			v, ok := p.decay[d]
+			if !ok {
+				continue
+			}
+			if v != 0 && d.decayKind != decayNone && d.late {
+				w.labels["decaying:late-long-tag-holds-value-across-round"] = true
+				if !due {
+					w.labels["decaying:late-long-tag-round-not-due"] = true
+				}
+			}
+			if !due {
+				if v != 0 && d.decayKind != decayNone {
+					w.labels["decaying:round-passes-tag-not-due"] = true
+				}
+				continue
+			}
+			nv := decayOnce(d.decayKind, v)
+			if nv != v {
+				w.labels["decay-applied-by-schedule"] = true
+			}
+			if nv == 0 {
+				delete(p.decay, d)
+			} else {
+				p.decay[d] = nv
+			}
+		}
+		if due {
+			anyDue = true
+			d.nextDue = d.nextDue.Add(d.interval)
+		}
+	}
+	if anyDue {
+		w.idleRounds = 0
+	} else {
+		w.idleRounds++
+	}
 }
 
 func (w *world) bump(d *dtagModel, pi, delta int) {
@@ -606,9 +671,11 @@ func (w *world) advance(d time.Duration) {
 		mark := w.rec.mark()
 		time.Sleep(next.Sub(now))
 		synctest.Wait()
-		w.decayMayTick = true
+		if time.Since(w.t0)%w.cfg.decayRes == 0 {
+			w.decayRound(time.Now())
+		}
 		w.trimTimes = append(w.trimTimes, time.Now())
-		w.check() // re-synchronises decaying values (validity predicate) before they are used below
+		w.check()
 		batch := w.rec.since(mark)
 		if len(batch) == 0 {
 			continue
@@ -858,7 +925,7 @@ func (w *world) pruneAllowed(p *peerModel) bool {
 }
 
 func (w *world) check() {
-	defer func() { w.decayMayTick, w.trimTimes = false, w.trimTimes[:0] }()
+	defer func() { w.trimTimes = w.trimTimes[:0] }()
 	if got, want := w.cm.GetInfo().ConnCount, w.count(); got != want {
 		w.fail("GetInfo().ConnCount = %d, the notifications delivered so far imply %d", got, want)
 	}
@@ -904,8 +971,7 @@ func (w *world) check() {
 				w.fail("p%d: tag %s = %d, tag operations imply %d", p.idx, name, ti.Tags[name], p.static[name])
 			}
 		}
-		// decaying tags: exact after operations; across a clock segment each value is either
-		// unchanged or decayed once (the decay schedule itself is not modelled)
+		// decaying tags: exact, including the decay schedule (see dtagModel)
 		live := map[string]*dtagModel{}
 		for _, d := range w.dtags {
 			if !d.closed {
@@ -925,16 +991,8 @@ func (w *world) check() {
 			if got == want {
 				continue
 			}
-			if w.decayMayTick && got == decayOnce(d.decayKind, want) {
-				w.labels["decay-observed"] = true
-				if got == 0 {
-					delete(p.decay, d)
-				} else {
-					p.decay[d] = got
-				}
-				continue
-			}
-			w.fail("p%d: decaying tag %s = %d, bumps/removals imply %d (decay tick possible: %v)", p.idx, name, got, want, w.decayMayTick)
+			w.fail("p%d: decaying tag %s = %d, but its bumps/removals and its schedule (interval %v, decay kind %d, next due at %v) imply %d",
+				p.idx, name, got, d.interval, d.decayKind, d.nextDue.Sub(w.t0), want)
 		}
 		if ti.Value != p.total() {
 			w.fail("p%d: GetTagInfo.Value = %d, tag operations imply %d (tags %v)", p.idx, ti.Value, p.total(), ti.Tags)
